@@ -117,7 +117,7 @@ def raw_values(kind, k, seed, scale=None):
     raise ValueError(kind)
 
 
-def materialize(kind, cells, nan_cell, seed, target="binary", feature="f", classes=None, scale=None, values=None, xdtype=None, companion=None):
+def materialize(kind, cells, nan_cell, seed, target="binary", feature="f", classes=None, scale=None, values=None, xdtype=None, companion=None, yscale=None):
     vals = list(values) if values is not None else raw_values(kind, len(cells), seed, scale)
     xs, ys = [], []
     for v, c in zip(vals, cells):
@@ -139,6 +139,8 @@ def materialize(kind, cells, nan_cell, seed, target="binary", feature="f", class
         X["g"] = pd.Series([f"id{i}" for i in range(len(xs))], dtype=object)
     if classes is not None:
         ys = [classes[v] for v in ys]
+    if yscale is not None:  # continuous targets whose information sits in the fractional part
+        ys = [v * yscale for v in ys]
     y = pd.Series(ys)
     return X, y, vals
 
@@ -224,13 +226,13 @@ def build_frames(case):
     target = target_of(case)
     cells = [tuple(c) for c in case["cells"]]
     nan = tuple(case["nan"]) if case.get("nan") is not None else None
-    X, y, vals = materialize(case["kind"], cells, nan, case.get("seed", 0), target, classes=case.get("classes"), scale=case.get("scale"), values=case.get("values"), xdtype=case.get("xdtype"), companion=case.get("companion"))
+    X, y, vals = materialize(case["kind"], cells, nan, case.get("seed", 0), target, classes=case.get("classes"), scale=case.get("scale"), values=case.get("values"), xdtype=case.get("xdtype"), companion=case.get("companion"), yscale=case.get("yscale"))
     Xd = yd = None
     dev = case.get("dev")
     if dev is not None:
         dcells = [tuple(c) for c in dev["cells"]]
         dnan = tuple(dev["nan"]) if dev.get("nan") is not None else None
-        Xd, yd, _ = materialize(case["kind"], dcells, dnan, case.get("seed", 0), target, classes=case.get("classes"), scale=case.get("scale"), values=case.get("values"), xdtype=case.get("xdtype"), companion=case.get("companion"))
+        Xd, yd, _ = materialize(case["kind"], dcells, dnan, case.get("seed", 0), target, classes=case.get("classes"), scale=case.get("scale"), values=case.get("values"), xdtype=case.get("xdtype"), companion=case.get("companion"), yscale=case.get("yscale"))
     return X, y, Xd, yd, vals
 
 
